@@ -288,6 +288,10 @@ func sweepResult(pj *simdjson.ParsedJson) error {
 	if err := walk.Guard(func() error { walk.Into(pj); return nil }); err != nil {
 		return fmt.Errorf("AdvanceInto walk: %w", err)
 	}
+	// Recursive readers (and Array.Interface, which pre-allocates its remaining extent at
+	// every level and so is quadratic in the nesting depth) only run on moderately nested
+	// tapes; deep nesting is exercised separately by C05's deep mode.
+	deep := tapeDepth(pj) > 3000
 	steps := []func(){
 		func() { walk.Adv(pj) },
 		func() { walk.IterCB(pj) },
@@ -311,6 +315,9 @@ func sweepResult(pj *simdjson.ParsedJson) error {
 	}
 	names := []string{"Advance walk", "ForEach walk", "Object.Parse walk", "Interface", "MarshalJSON", "FindElement/Peek/AdvanceIter", "Serialize"}
 	for i, f := range steps {
+		if deep && (i == 1 || i == 2 || i == 3) {
+			continue
+		}
 		if i == 6 {
 			// Serialize documents that it panics on tapes it cannot represent (unknown tags,
 			// strings out of range); that is its contract, not a traversal: not judged.
@@ -653,4 +660,23 @@ func replayC19(w *W, cs *ev.Case) {
 	w.Out.NShards = 1
 	st := &c19State{}
 	w.c19Try(st, cs.Gen, cs.Input)
+}
+
+// tapeDepth returns the maximum container nesting on a tape (a plain scan).
+func tapeDepth(pj *simdjson.ParsedJson) int {
+	d, max := 0, 0
+	for i := 0; i < len(pj.Tape); i++ {
+		switch byte(pj.Tape[i] >> 56) {
+		case '{', '[':
+			d++
+			if d > max {
+				max = d
+			}
+		case '}', ']':
+			d--
+		case '"', 'l', 'u', 'd':
+			i++
+		}
+	}
+	return max
 }
